@@ -25,7 +25,7 @@ use crate::bucket::event_index::OpenEventIndex;
 use crate::bucket::partition_index::{OpenPartitionIndex, PartitionIndexRecord};
 use crate::bucket::segment::{
     BucketSegmentReader, BucketSegmentWriter, COMMIT_SIZE, EVENT_HEADER_SIZE, LongBytes, RawCommit,
-    RawEvent, RecordHeader, SEGMENT_HEADER_SIZE, ShortString,
+    RawEvent, Record, RecordHeader, SEGMENT_HEADER_SIZE, ShortString,
 };
 use crate::bucket::stream_index::{OpenStreamIndex, StreamIndexRecord};
 use crate::bucket::{BucketId, BucketSegmentId, PartitionId, SegmentKind};
@@ -320,6 +320,29 @@ impl Worker {
                     SegmentKind::Events.get_path(&dir, bucket_segment_id),
                     Some(writer.flushed_offset()),
                 )?;
+
+                // A crash can leave the events of a transaction at the end of the segment without
+                // their commit record. They were never acknowledged: truncate them, otherwise they
+                // are indexed, consume sequences and versions, and shadow later lookups.
+                let mut committed_end = SEGMENT_HEADER_SIZE as u64;
+                {
+                    let mut iter = reader.iter();
+                    while let Some(record) = iter.next_record()? {
+                        match record {
+                            Record::Event(event) if get_uuid_flag(&event.transaction_id) => {
+                                committed_end = event.offset + event.size;
+                            }
+                            Record::Event(_) => {}
+                            Record::Commit(commit) => {
+                                committed_end = commit.offset + COMMIT_SIZE as u64;
+                            }
+                        }
+                    }
+                }
+                let mut writer = writer;
+                if committed_end < writer.write_offset() {
+                    writer.set_len(committed_end)?;
+                }
 
                 let mut event_index = OpenEventIndex::open(
                     bucket_segment_id,
